@@ -72,7 +72,7 @@ class Report(object):
         else:
             module = fn_or_mod.module.name
             qualname = getattr(fn_or_mod, 'qualname', None) or fn_or_mod.name
-        lineno = getattr(node, 'lineno', 0) if node is not None else 0
+        lineno = node if isinstance(node, int) else (getattr(node, 'lineno', 0) if node is not None else 0)
         control = module.startswith('petl._controls')
         ob = Obligation(self.prop, rule, module, qualname, construct, status,
                         message, lineno, detail, control)
